@@ -541,10 +541,32 @@ func runCloseRT(t *testing.T, line string) string {
 	time.Sleep(3 * time.Millisecond)
 	begin := make(chan struct{})
 	back := make(chan struct{}, closers+1)
+	var earlyMu sync.Mutex
+	early := 0 // Close calls that returned while Inbound was still open
 	for c := 0; c < closers; c++ {
 		go func() {
 			<-begin
 			tun.Close()
+			// after Close has returned - for THIS caller too, not only for the one that did the work -
+			// Inbound is closed: at most parked telegrams come first
+			open := false
+		look:
+			for {
+				select {
+				case _, ok := <-tun.Inbound():
+					if !ok {
+						break look
+					}
+				default:
+					open = true
+					break look
+				}
+			}
+			if open {
+				earlyMu.Lock()
+				early++
+				earlyMu.Unlock()
+			}
 			back <- struct{}{}
 		}()
 	}
@@ -598,7 +620,10 @@ drained:
 	sock.mu.Lock()
 	d := sock.dreqs
 	sock.mu.Unlock()
-	return fmt.Sprintf("dreq=%d returned=%d/%d inbound=%s send=%s second=%s", d, returned, closers, inbound, send, second)
+	earlyMu.Lock()
+	e := early
+	earlyMu.Unlock()
+	return fmt.Sprintf("dreq=%d returned=%d/%d early=%d inbound=%s send=%s second=%s", d, returned, closers, e, inbound, send, second)
 }
 
 // runReconnRT: "rcrt <ms before the gateway disconnects> <resend ms> <timeout ms>": a Send whose request the
